@@ -43,7 +43,7 @@ def run(ctx, kinds):
     for s in sums:
         for k, v in s.get("comp", {}).items():
             comp[k] = comp.get(k, 0) + v
-    if any(comp.get(k, 0) == 0 for k in ("mem", "l0", "nl0")):
+    if not any(s.get("hung") or s.get("panicked") for s in sums) and any(comp.get(k, 0) == 0 for k in ("mem", "l0", "nl0")):
         raise HarnessError("drivers did not reach every compaction kind: %s" % comp)
     other = 0
     pending = sums
